@@ -475,6 +475,7 @@ def translate(repo):
 # ====================================================================== K: generators, references, exhaustive scans
 
 import datetime as _dt
+import math as _math
 
 MS_MIN, MS_MAX = -62135596800000, 253402300799999     # 0001-01-01T00:00:00.000Z .. 9999-12-31T23:59:59.999Z
 DAY_MIN, DAY_MAX = -719162, 2932896
@@ -590,6 +591,13 @@ def reference(line):
         if op == "inst":
             ms = int(t[1])
             return py_inst(ms) if MS_MIN <= ms <= MS_MAX else None
+        if op == "dbl":
+            ms = int(t[1])
+            if not (MS_MIN <= ms <= MS_MAX):
+                return None
+            x = ms / 1000.0                                   # python float: the same binary64 quotient
+            n, den = x.as_integer_ratio()
+            return "%d %d %d %s %s" % (n, den.bit_length() - 1, _math.floor(x * 1000 + 0.5), " ".join(str(v) for v in py_fields(ms)[:7]), py_fmt(4, ms))
         if op == "instu":
             ms = round_ms(int(t[1]))
             return py_inst(ms) if MS_MIN <= ms <= MS_MAX else None
@@ -826,6 +834,16 @@ def gen(rng, tier):
             z = rng.choice([b"Z", b"Z", b"", zone_text(rng, rng.choice([1, -1]), rng.randrange(24), rng.randrange(60), rng.randrange(3))])
             batch.append("rtp " + hexs(iso_text(rng, ms, rng.random() < 0.6, True, fr, z)))
         cases.append(batch)
+    # --- the stored double of whole-millisecond instants (op dbl: n / 2^k in lowest terms, floor(t*1000+0.5), fields, FULL):
+    #     every binade 2^j s on both sides of its edge, small instants around the epoch, the limits, random; some out of range / malformed
+    batch = ["dbl %d" % v for v in (MS_MIN, MS_MAX, 0, 1, -1, 999, 1000, -1000, 1500, 500, -500, MS_MIN - 1, MS_MAX + 1)] + ["dbl x", "dbl 1.5", "dbl"]
+    for j in range(39):
+        for sg in (1, -1):
+            for dl in (-1, 0, 1, rng.randrange(-999, 1000), rng.randrange(-10 ** 6, 10 ** 6)):
+                batch.append("dbl %d" % (sg * (2 ** j) * 1000 + dl))
+    cases.append(batch)
+    for _ in range(40 if big else 6):
+        cases.append(["dbl %d" % (rng.randrange(-5000, 5000) if rng.random() < 0.1 else rand_ms(rng) if rng.random() < 0.97 else rng.choice([MS_MIN - 1 - rng.randrange(10 ** 9), MS_MAX + 1 + rng.randrange(10 ** 9)])) for _ in range(50)])
     for k in (-719162, -1, 0, 1, 11016, 47482, 2932896):       # t = 86400 k - eps, eps = 0.0001 .. 0.0009 s
         cases.append(["instu %d" % (k * 86400 * 1000000 - e) for e in (100, 200, 300, 400, 600, 700, 800, 900) if not (abs(k) > 100000 and e in (400, 600))])
     # --- every zone offset -23:59..+23:59 (all styles in thorough, one random style each in quick)
@@ -955,7 +973,7 @@ def gen(rng, tier):
 
 
 def nontrivial(case):
-    return any(l.split()[0] in ("inst", "instu", "tieu", "rtp", "split", "splitu", "make", "rt", "fmt", "fmtu", "parsefmt") or (l.startswith("parse ") and len(l.split()[1]) >= 16) for l in case)
+    return any(l.split()[0] in ("inst", "instu", "dbl", "tieu", "rtp", "split", "splitu", "make", "rt", "fmt", "fmtu", "parsefmt") or (l.startswith("parse ") and len(l.split()[1]) >= 16) for l in case)
 
 
 def _parse_class(b):
